@@ -2,13 +2,8 @@
 # Build the framework from files on disk only (offline).
 set -e
 cd "$(dirname "$0")"
-export GOFLAGS=-mod=mod GOPROXY=off
-unset GOSUMDB
 mkdir -p .build evidence replays
-cp /repo/go.sum harness/go.sum
-(cd harness && go build -o ../.build/extract ./cmd/extract)
-./.build/extract lean/Mercure/Generated/Facts.lean .build/facts.json /repo
+# extract + instrumenter + the three harness builds (plain, instrumented, race) + facts + driver
+./tools/build.sh
 (cd lean && lake build Mercure driver)
-echo '{"Replace": {"/repo/verif_export_verif.go": "/verif/harness/overlay/verif_export.go"}}' > .build/overlay.json
-export GOEXPERIMENT=synctest; (cd harness && go build -tags verif -overlay ../.build/overlay.json -o ../.build/vh ./cmd/vh)
 echo setup done
